@@ -46,3 +46,48 @@ impl TimeZoneProvider for UtcProvider {
         Ok(None)
     }
 }
+
+/// A harness-owned zone served straight from an R6 rule set: every zone answer is decided by the harness.
+pub struct SynthProvider<'a> {
+    pub name: &'a str,
+    pub zone: &'a tmc_ref::r6::Zone,
+}
+
+fn local_ns(dt: &IsoDateTime) -> i128 {
+    let d = tmc_ref::r1::days_from_civil(dt.date.year as i64, dt.date.month, dt.date.day) as i128;
+    d * 86_400_000_000_000
+        + dt.time.hour as i128 * 3_600_000_000_000
+        + dt.time.minute as i128 * 60_000_000_000
+        + dt.time.second as i128 * 1_000_000_000
+        + dt.time.millisecond as i128 * 1_000_000
+        + dt.time.microsecond as i128 * 1_000
+        + dt.time.nanosecond as i128
+}
+
+impl TimeZoneProvider for SynthProvider<'_> {
+    fn check_identifier(&self, id: &str) -> bool {
+        id.eq_ignore_ascii_case(self.name)
+    }
+    fn get_named_tz_epoch_nanoseconds(&self, id: &str, local: IsoDateTime) -> TemporalResult<Vec<EpochNanoseconds>> {
+        if !self.check_identifier(id) {
+            return Err(TemporalError::range().with_message("SynthProvider: unknown zone"));
+        }
+        self.zone.candidates(local_ns(&local)).into_iter().map(EpochNanoseconds::try_from).collect()
+    }
+    fn get_named_tz_offset_nanoseconds(&self, id: &str, t: i128) -> TemporalResult<TimeZoneOffset> {
+        if !self.check_identifier(id) {
+            return Err(TemporalError::range().with_message("SynthProvider: unknown zone"));
+        }
+        Ok(TimeZoneOffset { transition_epoch: self.zone.last_transition(t).map(|x| (x / 1_000_000_000) as i64), offset: self.zone.offset_at(t) })
+    }
+    fn get_named_tz_transition(&self, id: &str, t: i128, dir: TransitionDirection) -> TemporalResult<Option<EpochNanoseconds>> {
+        if !self.check_identifier(id) {
+            return Err(TemporalError::range().with_message("SynthProvider: unknown zone"));
+        }
+        let r = match dir {
+            TransitionDirection::Next => self.zone.next_transition(t),
+            TransitionDirection::Previous => self.zone.prev_transition(t),
+        };
+        r.map(EpochNanoseconds::try_from).transpose()
+    }
+}
